@@ -293,7 +293,8 @@ class Writer(object):
                 col[kk] = self.value(v, '%s.col(%s).%s' % (p, c, kk), ver)
             o['cols'].append(col)
         if not rows:
-            form = sp(p + '.norows', ['[]', 'null', 'missing'])
+            # a NESTED grid is recognised by its three keys, so only the top level may leave "rows" out altogether
+            form = sp(p + '.norows', ['[]', 'null', 'missing'] if p.startswith('doc.g') and p.count('.') == 1 else ['[]', 'null'])
             if form == '[]':
                 o['rows'] = []
             elif form == 'null':
